@@ -16,9 +16,10 @@ SHAPEY = ["autoshape", "textbox", "freeform"]
 FILLY = ["autoshape", "textbox", "freeform"]
 LINEY = ["autoshape", "textbox", "freeform", "connector"]
 GEOM = ["autoshape", "textbox", "picture", "connector", "freeform", "table", "chart_bar", "chart_pie", "movie", "ole", "ph_title", "ph_body", "group"]
-CHARTS = ["chart_bar", "chart_line", "chart_pie", "chart_xy", "chart_bubble"]
-AXCHARTS = ["chart_bar", "chart_line", "chart_xy", "chart_bubble"]
-CATCHARTS = ["chart_bar", "chart_line", "chart_pie"]
+# chart_date: a line chart whose categories are dates - its category axis is a c:dateAx
+CHARTS = ["chart_bar", "chart_line", "chart_pie", "chart_xy", "chart_bubble", "chart_date"]
+AXCHARTS = ["chart_bar", "chart_line", "chart_xy", "chart_bubble", "chart_date"]
+CATCHARTS = ["chart_bar", "chart_line", "chart_pie", "chart_date"]
 
 OPS: list[dict] = []
 
@@ -513,6 +514,20 @@ def _(c):
     ax.visible = True
 
 
+@op("chart.date_axis", ["chart_date"])
+def _(c):
+    ax = _ch(c).category_axis
+    ax.reverse_order = True
+    ax.has_major_gridlines = True
+    ax.tick_labels.font.bold = True
+    ax.major_tick_mark = XL_TICK_MARK.OUTSIDE
+    ax.visible = True
+
+
+@op("reject.date_axis_offset", ["chart_date"], rejects=["ValueError"])
+def _(c): _ch(c).category_axis.tick_labels.offset = 50          # "only a category axis has an offset"
+
+
 @op("chart.plot_dlbls_on", CHARTS, set_=["dlbls"])
 def _(c):
     pl = _ch(c).plots[0]
@@ -840,4 +855,4 @@ def table() -> list[dict]:
 
 BY_NAME = {o["name"]: o for o in OPS}
 KINDS = ["autoshape", "textbox", "picture", "connector", "group", "freeform", "table", "chart_bar", "chart_line", "chart_pie", "chart_xy",
-         "chart_bubble", "movie", "ole", "ph_title", "ph_body", "slide", "ph_insert"]
+         "chart_bubble", "chart_date", "movie", "ole", "ph_title", "ph_body", "slide", "ph_insert"]
